@@ -12,6 +12,7 @@ from vp import gen, probe
 from vp import defaults
 from vp import reuse
 from vp import forms as argforms
+from vp import corners
 
 RULE = ('seeded generator: super-Gaussian (order 2/4) apodised apertures with smooth polynomial OPDs on even- and odd-sized, '
         'square and non-square arrays 24..64 per side, monolithic and angular-sector segmented masks, scale factors 0.5..4 '
@@ -21,7 +22,7 @@ ASSUMPTIONS = ['power / image tolerances 4e-2 (>= 6x the worst interpolation res
                'calibration cases, <= 1/4 of the 19% effect of a missing 1/s factor at |s-1| = 0.1)',
                'scale factors are drawn so that n*s is not within 1e-9 of an integer unless it is exactly one']
 PLAN = {'quick': {'gen': 8}, 'thorough': {'gen': 16, 'tests': 1, 'docs': 1}}
-REQUIRED_BUCKETS = ['defaults', 'forms', 's<1', 's>1', 's=1', 's:integer', 'shape:odd', 'shape:even', 'shape:nonsquare', 'monolithic', 'segmented',
+REQUIRED_BUCKETS = ['defaults', 'corners', 'forms', 's<1', 's>1', 's=1', 's:integer', 'shape:odd', 'shape:even', 'shape:nonsquare', 'monolithic', 'segmented',
                     'resample', 'resample:refused', 'scalar-attributes', 'mask-dtype', 'amp:signed', 's:decimal-near-integer-product', 'subclass:property-override', 'opd:exact-zeros', 'array-dtype', 'pair:same-output-size', 'amp:node-on-samples', 'opd-only-plane', 'constant-amplitude-as-array']
 REQUIRED_ANCHORS = ['probe:Plane.rescale', 'anchor:Plane.resample', 'anchor:util.rescale', 'anchor:_plane_slice']
 REQUIRED_ORACLES = ['pixelscale/s', 'shape=ceil(n*s)', 'mask:binary+segments', 'original-untouched', 'identity', 'power',
@@ -150,6 +151,7 @@ def workload(ctx, lentil):
     defaults.run(ctx, lentil, 'C17', 'pixelscale/s')
     reuse.run(ctx, lentil, 'C17', 'pixelscale/s')
     argforms.run(ctx, lentil, 'C17', 'pixelscale/s')
+    corners.run(ctx, lentil, 'C17', 'pixelscale/s')
     rng = ctx.rng
     n_cases = ctx.count(60, 450)
     for i in range(n_cases):
